@@ -136,7 +136,7 @@ theorem HasDefault.step {s : Cfg} (hi : Inv s) (h : HasDefault s.1) (op : Op) :
     · exact h
     · rename_i ref hl
       refine HasDefault.commit_valid hi ?_
-      have hm : (n, ref) ∈ s.1.presets := lookup_mem hl
+      have hm : (n, ref) ∈ s.1.presets := lookup_some_mem hl
       rw [hi.presetsVal _ hm]
       rw [hi.presetsEq] at hm
       exact Option.isSome_iff_exists.mp (init_presets_hasDefault _ hm)
